@@ -6,14 +6,14 @@ Z = ("float", -4.0, 4.0)
 def spec(tier):
     th = tier == "thorough"
     obs = []
-    prob_sets = [(1.0, 0.0, 0.0), (0.0, 1.0, 0.0), (0.0, 0.0, 1.0), (0.5, 0.5, 0.0), (0.3, 0.1, 0.6)]
+    prob_sets = [(1.0, 0.0, 0.0), (0.0, 1.0, 0.0), (0.0, 0.0, 1.0), (0.5, 0.5, 0.0), (0.3, 0.1, 0.6), (0.498, 0.004, 0.498)]
     # (npipes, nops, tps, wmean, K): wmean*tps = mean ticks between events
     plans = [(1, 2, 1, 3.0, 8), (2, 1, 1, 1.0, 4), (1, 3, 2, 0.25, 3), (1, 1, 4, 1.0, 7)]
     if th:
         plans += [(2, 2, 1, 8.0, 6), (1, 4, 1, 2.0, 5), (3, 1, 2, 0.5, 3), (1, 2, 4, 0.1, 3)]
     for pi, (npipes, nops, tps, wmean, K) in enumerate(plans):
         for qi, probs in enumerate(prob_sets):
-            if not th and qi in (0, 3) and pi > 0:
+            if not th and qi in (0, 3, 5) and pi > 0:
                 continue
             # the operator-count draw is split into ranges (1-2 operators / 3+ operators) to keep conditions small
             for (clo, chi) in ((-4.0, 1.9), (2.0, 4.0)):
